@@ -14,7 +14,7 @@ META = {
                    "the input to the stored value bypasses either) and are unioned with the locally held set through a BTreeSet; (3) a register "
                    "is stored only after register.verify() and, when a local copy exists, as local.verified_merge(incoming); (4) check-then-act: "
                    "a per-record spawned task that reads the local record, branches on it and writes after an await, with no per-key "
-                   "serialisation, is reported (known finding for all three mutable kinds). Not decided: which interleavings actually occur.",
+                   "serialisation, is reported (known finding for all three mutable kinds). Also: Scratchpad::is_valid verifies the owner's signature over counter and data hash (followed through helpers) and is false without a signature; the local copy those comparisons read includes accepted writes still in flight (NodeRecordStore::get serves the cache before consulting the index). Not decided: which interleavings actually occur.",
     "not_decided": ["runtime interleavings of concurrently processed updates (only the unserialised read-check-write shape is decided)"],
 }
 
